@@ -415,16 +415,10 @@ mod worker {
             ready_uni_wt_streams: &mpsc::Sender<StreamUniRemoteWT>,
         ) -> Result<(), DriverError> {
             trace!("H3 uni queue capacity: {}", ready_uni_h3_streams.capacity());
-            let h3_slot = ready_uni_h3_streams
-                .clone()
-                .reserve_owned()
-                .await
-                .expect("Receiver cannot be dropped");
 
-            let wt_slot = match ready_uni_wt_streams.clone().reserve_owned().await {
-                Ok(wt_slot) => wt_slot,
-                Err(mpsc::error::SendError(_)) => return Err(DriverError::NotConnected),
-            };
+            if ready_uni_wt_streams.is_closed() {
+                return Err(DriverError::NotConnected);
+            }
 
             let stream_quic = Stream::accept_uni(quic_connection)
                 .await
@@ -433,12 +427,18 @@ mod worker {
             let stream_id = stream_quic.id();
             debug!("New incoming uni stream ({})", stream_id);
 
+            let h3_queue = ready_uni_h3_streams.clone();
+            let wt_queue = ready_uni_wt_streams.clone();
+
+            // The stream is queued only once its header has been read: a peer that stalls in
+            // the middle of a header must not hold up the streams opened after it. The number
+            // of these tasks is bounded by the transport's concurrent streams limit.
             tokio::spawn(
                 async move {
                     let stream_h3 = match stream_quic.upgrade().await {
                         Ok(stream_h3) => stream_h3,
                         Err(ProtoReadError::H3(error_code)) => {
-                            h3_slot.send(Err(DriverError::Proto(error_code)));
+                            let _ = h3_queue.send(Err(DriverError::Proto(error_code))).await;
                             return;
                         }
                         Err(ProtoReadError::IO(_)) => {
@@ -451,9 +451,9 @@ mod worker {
 
                     if matches!(stream_kind, StreamKind::WebTransport) {
                         let stream_wt = stream_h3.upgrade();
-                        wt_slot.send(stream_wt);
+                        let _ = wt_queue.send(stream_wt).await;
                     } else {
-                        h3_slot.send(Ok(stream_h3));
+                        let _ = h3_queue.send(Ok(stream_h3)).await;
                     }
                 }
                 .instrument(debug_span!("Stream", "id={}", stream_id)),
@@ -470,16 +470,10 @@ mod worker {
             ready_bi_wt_streams: &mpsc::Sender<StreamBiRemoteWT>,
         ) -> Result<(), DriverError> {
             trace!("H3 bi queue capacity: {}", ready_bi_h3_streams.capacity());
-            let h3_slot = ready_bi_h3_streams
-                .clone()
-                .reserve_owned()
-                .await
-                .expect("Receiver cannot be dropped");
 
-            let wt_slot = match ready_bi_wt_streams.clone().reserve_owned().await {
-                Ok(wt_slot) => wt_slot,
-                Err(mpsc::error::SendError(_)) => return Err(DriverError::NotConnected),
-            };
+            if ready_bi_wt_streams.is_closed() {
+                return Err(DriverError::NotConnected);
+            }
 
             let stream_quic = Stream::accept_bi(quic_connection)
                 .await
@@ -488,6 +482,12 @@ mod worker {
             let stream_id = stream_quic.id();
             debug!("New incoming bi stream ({})", stream_id);
 
+            let h3_queue = ready_bi_h3_streams.clone();
+            let wt_queue = ready_bi_wt_streams.clone();
+
+            // The stream is queued only once its first frame has been read: a peer that stalls
+            // in the middle of it must not hold up the streams opened after it. The number of
+            // these tasks is bounded by the transport's concurrent streams limit.
             tokio::spawn(
                 async move {
                     let mut stream_h3 = stream_quic.upgrade();
@@ -501,7 +501,7 @@ mod worker {
                                 }
                             }
                             Err(ProtoReadError::H3(error_code)) => {
-                                h3_slot.send(Err(DriverError::Proto(error_code)));
+                                let _ = h3_queue.send(Err(DriverError::Proto(error_code))).await;
                                 return;
                             }
                             Err(ProtoReadError::IO(_)) => {
@@ -515,10 +515,10 @@ mod worker {
                     match frame.session_id() {
                         Some(session_id) => {
                             let stream_wt = stream_h3.upgrade(session_id);
-                            wt_slot.send(stream_wt);
+                            let _ = wt_queue.send(stream_wt).await;
                         }
                         None => {
-                            h3_slot.send(Ok((stream_h3, frame)));
+                            let _ = h3_queue.send(Ok((stream_h3, frame))).await;
                         }
                     }
                 }
